@@ -31,6 +31,7 @@ type HarnessCfg struct {
 	Portfolio        bool             `json:"portfolio,omitempty"`
 	SelectChoice     bool             `json:"select_choice,omitempty"`
 	Solver           string           `json:"solver,omitempty"`
+	Preemptions      int              `json:"preemptions,omitempty"`
 	ExpectViolations []string         `json:"expect,omitempty"`
 }
 
@@ -138,6 +139,7 @@ type Path struct {
 	tag          string
 	verified     []*verifiedSig
 	fnStack      []*ssa.Function
+	preemptUsed  int
 	crashArmed   int
 	crashCount   int
 	crashNames   []string
